@@ -1,4 +1,5 @@
 use crate::error::Converter;
+use crate::xml;
 use crate::Result;
 use roxmltree::Node;
 
@@ -13,11 +14,11 @@ pub struct DateTime {
 
 impl DateTime {
     pub(crate) fn from_node(node: &Node) -> Result<Option<Self>> {
-        let gps_time_text = node
+        let gps_time_node = node
             .children()
             .find(|n| n.has_tag_name("dateTimeValue") && n.attribute("type") == Some("Float"))
-            .invalid_err("Unable to find XML tag 'dateTimeValue' with type 'Float'")?
-            .text();
+            .invalid_err("Unable to find XML tag 'dateTimeValue' with type 'Float'")?;
+        let gps_time_text = xml::text(&gps_time_node);
         let gps_time = if let Some(text) = gps_time_text {
             text.parse::<f64>()
                 .invalid_err("Failed to parse inner text of XML tag 'dateTimeValue' as double")?
@@ -29,7 +30,7 @@ impl DateTime {
             n.has_tag_name("isAtomicClockReferenced") && n.attribute("type") == Some("Integer")
         });
         let atomic_reference = if let Some(node) = atomic_reference_node {
-            node.text().unwrap_or("0").trim() == "1"
+            xml::text(&node).is_some_and(|text| text.trim() == "1")
         } else {
             return Ok(None);
         };
